@@ -262,7 +262,7 @@ func (g *gen) pick(n int) int { return g.r.Intn(n) }
 
 func (g *gen) scalarType() *ctype { return scalarT(scalarNames[g.pick(len(scalarNames))]) }
 
-var fieldNamePool = []string{"a", "b", "c", "name", "Value", "x_1", "id"}
+var fieldNamePool = []string{"a", "b", "c", "name", "Value", "x_1", "id", "userId", "ZIP"}
 
 func (g *gen) typeTree(depth int) *ctype {
 	if depth <= 1 || g.pick(4) == 0 {
